@@ -1,3 +1,4 @@
+import IofloModel.Lemmas.Imports
 import IofloModel.Lemmas.ImportsCold0
 import IofloModel.Lemmas.ImportsCold1
 import IofloModel.Lemmas.ImportsCold2
@@ -37,6 +38,21 @@ theorem chunk_ok : ∀ i, i < 8 →
   | 6, _ => coldChunk6
   | 7, _ => coldChunk7
   | n + 8, h => absurd h (by omega)
+
+/-- all chunks go through the same cold import of the root package -/
+theorem cold_via_root : ∀ m ∈ graph.domain,
+    cold graph m = importChain graph (importChain graph (fresh graph) [root]).1 (graph.chain m) := by
+  intro m hm
+  have h1 := domain_chunks
+  simp only [List.all_eq_true, List.any_eq_true, List.contains_iff_mem] at h1
+  obtain ⟨c, hc, hmc⟩ := h1 m hm
+  obtain ⟨i, hi, rfl⟩ := List.getElem_of_mem hc
+  have hk := chunk_ok i (Nat.lt_of_lt_of_le hi chunks_le)
+  have hget : domainChunks.getD i [] = domainChunks[i] := by
+    rw [List.getD_eq_getElem?_getD, List.getElem?_eq_getElem hi]
+    rfl
+  rw [hget] at hk
+  exact (cold_eq_of_chunk graph root (staleFrom graph) _ hk).2 m hmc
 
 /-- **C01, cold imports (table over the regenerated graph).**  Every module of the tree imports in a newly
 started interpreter, except the modules in the region of known finding D01c (`staleFrom`: the module's own
@@ -80,5 +96,84 @@ theorem C01_counterexample_D01c : ¬ C01_each_cold_full := by
   have h2 := C01_D01c_outcome
   rw [h1] at h2
   cases h2
+
+/-! ## any order -/
+
+/-- the state after `import ioflo` in a newly started interpreter -/
+def rootState : State := (importChain graph (fresh graph) [root]).1
+
+/-- the property, second half: in any order (with repetitions) every import succeeds -/
+def C01_any_order_full : Prop :=
+  ∀ ms : List Mod, (∀ m ∈ ms, m ∈ graph.domain) → ∀ e ∈ (importAll graph (fresh graph) ms).2, e = none
+
+theorem root_ok : (importChain graph (fresh graph) [root]).2 = none :=
+  (cold_eq_of_chunk graph root (staleFrom graph) _ (chunk_ok 0 (by decide))).1
+
+/-- `import ioflo` in a fresh interpreter is `cold graph root` and yields `rootState` -/
+theorem cold_root : cold graph root = (rootState, none) := by
+  have hd : root ∈ graph.domain := by decide +kernel
+  have h1 := cold_via_root root hd
+  have hc : graph.chain root = [root] := by decide +kernel
+  rw [hc] at h1
+  have hp : rootState.isPresent root = true :=
+    findAndLoad_ok_present graph (runBody graph)
+      (fun s m body => runEvs_mono _ (fun s e => execEv_mono graph graph.fuel m s e) body s)
+      graph.main 0 root [] (fresh graph) root_ok
+  rw [h1]
+  exact findAndLoad_present graph (runBody graph) graph.main 0 rootState root [] hp
+
+/-- whatever module of the tree the host program imports first, afterwards everything that `import ioflo`
+loads is in `sys.modules` -/
+theorem first_import_has_root (m : Mod) (hm : m ∈ graph.domain) :
+    PresMono rootState (importModule graph (fresh graph) m).1 := by
+  have h1 := cold_via_root m hm
+  unfold cold at h1
+  rw [h1]
+  exact importModule_mono graph rootState m
+
+/-- **C01, any order, for the modules that `import ioflo` itself loads.**  Take ANY sequence of imports of
+modules of the tree (any order, repetitions, modules that fail, modules outside this set in between): every
+import of a module that `import ioflo` itself brings in succeeds.  Reason: the first import of the sequence,
+whatever it is, runs the cold import of the root package first; an import never removes a module from
+`sys.modules` (`importModule_mono`, generic); a module found there is returned as it is. -/
+theorem C01_any_order_core_partial (ms : List Mod) (hdom : ∀ m ∈ ms, m ∈ graph.domain) :
+    ∀ p ∈ ms.zip (importAll graph (fresh graph) ms).2, rootState.isPresent p.1 = true → p.2 = none := by
+  cases ms with
+  | nil => intro p hp; simp [importAll] at hp
+  | cons m rest =>
+    intro p hp hcore
+    have hm := hdom m (List.mem_cons_self ..)
+    simp only [importAll, List.zip_cons_cons, List.mem_cons] at hp
+    rcases hp with rfl | hp
+    · -- the first import itself
+      have h1 := cold_via_root m hm
+      unfold cold at h1
+      show (importModule graph (fresh graph) m).2 = none
+      rw [h1]
+      exact congrArg Prod.snd (importChain_present graph rootState m hcore)
+    · exact importAll_over graph rootState rest _ (first_import_has_root m hm) p hp hcore
+
+/-- **C01, `import ioflo` first.**  After `import ioflo` every module of the tree outside the region of D01c
+imports (this is the order `python -c "import ioflo; import m"`). -/
+theorem C01_after_root_partial (m : Mod) (hm : m ∈ graph.domain) (hs : staleFrom graph m = false) :
+    (importAll graph (fresh graph) [root, m]).2 = [none, none] := by
+  have h0 : importModule graph (fresh graph) root = (rootState, none) := cold_root
+  have h1 := cold_via_root m hm
+  have h2 := C01_each_cold_partial m hm hs
+  rw [h1] at h2
+  simp only [importAll, h0]
+  show [none, (importChain graph rootState (graph.chain m)).2] = [none, none]
+  rw [show (importChain graph rootState (graph.chain m)).2 = none from h2]
+
+/-- **C01, once imported, always importable** (generic lemma `importModule_again` on this graph): after a
+successful import of `m` in any state and any further imports, importing `m` again succeeds. -/
+theorem C01_reimport (s : State) (m : Mod) (ms : List Mod) (h : (importModule graph s m).2 = none) :
+    (importModule graph (importAll graph (importModule graph s m).1 ms).1 m).2 = none := by
+  rw [importModule_again graph s m ms h]
+
+set_option maxRecDepth 1000000 in
+/-- non-vacuity: the hypothesis covers the package itself and the modules it pulls in (more than 50 of the
+module files) -/
+example : 50 < (graph.domain.filter (fun m => rootState.isPresent m)).length := by decide +kernel
 
 end Ioflo.Imports
